@@ -16,6 +16,8 @@ of parts because rhs is the defining equation (kind='definition') or a lemma pro
 (kind='lemma').  Instantiating at fewer terms can only lose proofs, never soundness."""
 from __future__ import annotations
 
+import os
+
 from dataclasses import dataclass
 from typing import Any, Callable, Sequence
 
@@ -220,6 +222,20 @@ def _walk_apps(formulas: Sequence[Any], lib: SpecLib, seen_terms: set[int]):
             stack.extend(t.children())
 
 
+def _walk_contains(formulas: Sequence[Any], seen: set[int]):
+    stack = list(formulas)
+    while stack:
+        t = stack.pop()
+        if t.get_id() in seen:
+            continue
+        seen.add(t.get_id())
+        if z3.is_quantifier(t) or not z3.is_app(t):
+            continue
+        if t.decl().kind() == z3.Z3_OP_SEQ_CONTAINS and _is_seq(t.arg(0)):
+            yield t
+        stack.extend(t.children())
+
+
 def instantiate(hyps: Sequence[Any], goal: Any, bank: TermBank, lib: SpecLib, rounds: int = 6, limit: int = 3000,
                 lemma_rules: set[str] | None = None):
     # lemma_rules: None = every rule may fire (function proofs; all lemmas are proved separately);
@@ -232,6 +248,7 @@ def instantiate(hyps: Sequence[Any], goal: Any, bank: TermBank, lib: SpecLib, ro
     instances: list[Any] = []
     inst_keys: set[tuple] = set()
     seen_terms: set[int] = set()
+    seen_contains: set[int] = set()
     apps: list[tuple[SpecFn, Any]] = []
     frontier: list[Any] = list(hyps) + [goal]
     used: dict[str, int] = {}
@@ -283,7 +300,37 @@ def instantiate(hyps: Sequence[Any], goal: Any, bank: TermBank, lib: SpecLib, ro
                         m.add_alias(app, rhs)
             if len(instances) > limit:
                 return instances, used
+        # membership in a sequence term whose decomposition is known only through an alias (a rule instance f(..) == s ++ [k]): the solvers do not
+        # rewrite under `Contains` reliably, so the decomposition is pushed through it here (valid facts of the sequence theory, guarded by the alias)
+        for c in _walk_contains(frontier, seen_contains):
+            T, u = c.arg(0), c.arg(1)
+            if not (z3.is_app(u) and u.decl().kind() == z3.Z3_OP_SEQ_UNIT):
+                continue
+            if z3.is_app(T) and T.decl().kind() in (z3.Z3_OP_SEQ_CONCAT, z3.Z3_OP_SEQ_UNIT, z3.Z3_OP_SEQ_EMPTY):
+                continue            # already syntactic: the solver handles it
+            pe = u.arg(0)
+            for kind_ in ("snoc", "cons"):
+                for sh in m.shapes(T, kind_)[:2]:
+                    st = shape_term(sh, T.sort())
+                    rest, k_ = (sh[1], sh[2]) if kind_ == "snoc" else (sh[2], sh[1])
+                    key = ("contains-lift", c.get_id(), st.get_id())
+                    if key in inst_keys:
+                        continue
+                    inst_keys.add(key)
+                    inst = z3.Implies(T == st, c == z3.Or(z3.Contains(rest, u), k_ == pe))
+                    instances.append(inst)
+                    new_formulas.append(inst)
+                    used["contains-lift"] = used.get("contains-lift", 0) + 1
         for ex in lib.extra_instantiators:
+            if lemma_rules is not None:
+                # while a lemma is being proved only definitions are instantiated: an area instantiator that encodes proved lemmas (attribute `encodes`:
+                # their names) is off unless the lemma lists all of them in `uses`, any other area instantiator is off unless marked `definitional` -- no circularity
+                enc = getattr(ex, "encodes", None)
+                if enc is not None:
+                    if not set(enc) <= set(lemma_rules):
+                        continue
+                elif not getattr(ex, "definitional", False) and not hasattr(ex, "reset"):
+                    continue          # neither a definition (QPred instantiators carry `reset`) nor declared: not available to lemma proofs
             for inst in ex(list(hyps) + [goal] + instances):
                 key = ("extra", inst.get_id())
                 if key not in inst_keys:
